@@ -474,6 +474,14 @@ def probe_cases(rng, tier):
         c = copy.deepcopy(sl[k])
         c['_near_planes'] = True
         lab.append((k + '-near-planes', c))
+    # a core of low-fidelity assemblies only: the gap mesh has corner cells
+    # only, and the cells between three assemblies bind the gap's step
+    UL = scenarios.fitted_type(3, 0.060, use_low_fidelity_model=True,
+                               low_fidelity_model='simple')
+    lab.append(('7-all-lowfi-gap-limited', scenarios.make_core(
+        rng, {'U': UL}, [(r_, p_, 'U') for (r_, p_) in p7],
+        [scenarios.flow_for(UL, 0.1)] * 7, gap_model='flow',
+        bypass_fraction=0.01)))
     # the step is limited by a tight un-rodded region that is followed by
     # a much looser one (the assembly's requirement is the minimum over its
     # regions, wherever the limiting one sits)
